@@ -260,6 +260,7 @@ def validate_traces(module, trace_files, parallel=8, timeout=3600, branch_pos=3,
     The trace specs print one <<"VERDICT", l, "ok"|"MISMATCH", ...>> per event and a final <<"DONE", n, bad>>.
     A trace whose DONE line is missing or whose count differs is a tool error."""
     out = TraceOutcome()
+    out.module = module
     trace_files = [t for t in trace_files if os.path.getsize(t) > 0]
     jobs = []
     for i, t in enumerate(trace_files):
@@ -380,6 +381,7 @@ class Check:
         self.seed = seed
         self.t0 = time.time()
         self.violations = []   # (key dict, replay payload)
+        self.notes = []        # non-conforming events that concern another property
         self.known = []
         self.cov = {"states": 0, "transitions": 0, "traces_validated_against_impl": 0, "samples": [],
                     "evaluations": 0, "distinct_nontrivial": 0, "rule": "", "mc_runs": [], "branches": {}}
@@ -393,7 +395,9 @@ class Check:
         for name, msg, tail in mc.failed:
             self.violation({"kind": "model", "spec": name}, {"message": msg, "tlc_output_tail": tail})
 
-    def add_traces(self, to, keyfn=None, label=None):
+    def add_traces(self, to, keyfn=None, label=None, relevant=None):
+        """relevant(ev, verdict) -> bool: which non-conforming events are violations of THIS property (others are
+        logged as notes: they belong to another property's check)."""
         self.cov["states"] += to.states
         self.cov["transitions"] += to.transitions
         self.cov["traces_validated_against_impl"] += to.traces
@@ -406,7 +410,10 @@ class Check:
                 self.cov["samples"].append(s)
         for (t, idx, ev, v) in to.mismatches:
             key = keyfn(ev, v) if keyfn else {"tag": ev.get("tag", ""), "ev": ev.get("ev", "")}
-            self.violation(key, {"trace": t, "index": idx, "event": ev, "tlc_verdict": v})
+            if relevant is not None and not relevant(ev, v):
+                self.notes.append(key)
+                continue
+            self.violation(key, {"trace": t, "index": idx, "event": ev, "tlc_verdict": v, "module": to.module})
 
     def violation(self, key, payload):
         f = is_known(self.prop, key)
@@ -436,6 +443,9 @@ class Check:
               "coverage": cov, "assumptions": self.assumptions, "wall_s": round(wall, 1),
               "violations": len(self.violations), "known_findings": len(self.known)}
         json.dump(ev, open(os.path.join(EVID, self.prop + ".json"), "w"), indent=1)
+        if self.notes:
+            log("[note] %d non-conforming event(s) outside this property's scope (see that property's check), e.g. %s" %
+                (len(self.notes), json.dumps(self.notes[0])[:200]))
         if self.violations:
             for p in replay_paths:
                 log("VIOLATION property=%s replay=%s" % (self.prop, p))
